@@ -221,16 +221,24 @@ ChooseMap(t) ==
         ext  == SliceShape(shp, r)
         idx  == [a \in 1..Len(shp) |-> IF Pick(1..3) = 1 THEN Pick((0 - shp[a])..-1) ELSE Pick(0..(shp[a] - 1))]
         other == Pick(Names \ {h})
-        rk0  == PickSeq(<<"sc", "tn", "tn", "fl">>)
-        rk   == IF rk0 = "sc" /\ via # "owner" /\ op = "whole" THEN "tn" ELSE rk0      \* TensorMap has no operator=(scalar)
+        rk0  == PickSeq(<<"sc", "tn", "tn", "fl", "mp", "mp">>)
+        rk   == IF rk0 = "sc" /\ via # "owner" /\ op = "whole" THEN "tn"                \* TensorMap has no operator=(scalar)
+                ELSE IF rk0 = "mp" /\ op # "whole" THEN "tn" ELSE rk0
+        \* mp: a bare map of a whole buffer as right-hand side of a whole-handle assignment -- the SAME storage as the destination
+        \* (x += flatten(x): perfect overlap) or the equally sized twin buffer
+        twin == CASE h = "A1" -> "B1" [] h = "B1" -> "A1" [] h = "A2" -> "B2" [] h = "B2" -> "A2" [] OTHER -> h
+        mpbuf == IF Pick(1..3) <= 2 THEN h ELSE twin
         rhsOf(n) == CASE rk = "sc" -> [k |-> "sc", v |-> Val(Pick({-3, -2, 2, 3}))]
                       [] rk = "tn" -> [k |-> "tn", vals |-> [q \in 1..n |-> Val(((q * 5 + Pick(0..6)) % 7) - 3)]]
+                      [] rk = "mp" -> [k |-> "mp", buf |-> mpbuf, shape |-> shp, via |-> IF Len(shp) = 1 THEN PickSeq(<<"flatten", "map", "reshape">>) ELSE PickSeq(<<"map", "reshape">>)]
                       \* the first n cells of another buffer seen through flatten(): a map as right-hand side
                       [] rk = "fl" -> IF n <= Prod(ShapeOf(other)) /\ Len(shp) = 1
                                       THEN [k |-> "vw", buf |-> other, shape |-> <<Prod(ShapeOf(other))>>, r |-> <<[k |-> "seq", f |-> 0, l |-> n, s |-> 1]>>, via |-> "flatten"]
                                       ELSE [k |-> "tn", vals |-> [q \in 1..n |-> Val(((q * 3 + Pick(0..4)) % 5) - 2)]]
     IN CASE op = "slice" -> [e |-> "SliceWrite", buf |-> h, shape |-> shp, via |-> via, r |-> r, aop |-> PickSeq(Aops), na |-> 0, rhs |-> rhsOf(Prod(ext))]
-         [] op = "whole" -> [e |-> "SliceWrite", buf |-> h, shape |-> shp, via |-> via, whole |-> 1, r |-> rall, aop |-> PickSeq(Aops), na |-> 0, rhs |-> rhsOf(Prod(shp))]
+         \* (map = map is C++ copy assignment of the handle: it rebinds the pointer and copies nothing -- not an element assignment)
+         [] op = "whole" -> [e |-> "SliceWrite", buf |-> h, shape |-> shp, via |-> via, whole |-> 1, r |-> rall,
+                             aop |-> LET a == PickSeq(Aops) IN IF rk = "mp" /\ via # "owner" /\ a = "set" THEN "add" ELSE a, na |-> 0, rhs |-> rhsOf(Prod(shp))]
          [] op = "scalar" -> [e |-> "ScalarWrite", buf |-> h, shape |-> shp, via |-> via, idx |-> idx, aop |-> PickSeq(<<"set", "add", "sub", "mul">>), v |-> Val(Pick({-3, -2, 2, 3}))]
          [] op = "read" -> [e |-> "SliceRead", buf |-> h, shape |-> shp, via |-> via, r |-> r, form |-> PickSeq(<<"ctor", "expr">>), m |-> Val(Pick({2, -3})), c |-> Val(Pick({1, -2}))]
          [] op = "sread" -> [e |-> "ScalarRead", buf |-> h, shape |-> shp, via |-> via, idx |-> idx]
